@@ -1,6 +1,6 @@
 (* C15 — the algebra fails only with ValueError and never yields malformed output. *)
 From Sigtools.Model Require Import Base Bind Roles Algebra.
-From Sigtools.Proofs Require Import SmallModel Basics.
+From Sigtools.Proofs Require Import SmallModel Basics RcValid.
 
 Theorem C15_merge_wf ss r : merge ss = Ok r -> validate (params r) = true.
 Proof. exact (merge_wf ss r). Qed.
@@ -38,3 +38,22 @@ Theorem C15_merge_value_error_only_from_validation s0 ss :
   exists acc, merge_steps (sort_params s0) ss = Ok acc /\ validate (flatten acc) = false.
 Proof. exact (merge_value_error_only_from_validation s0 ss). Qed.
 Print Assumptions C15_merge_value_error_only_from_validation.
+
+(* ---- role-consistent valid inputs never fail in the final validating constructor: the only failure of
+   merge is IncompatibleSignatures (Proofs/RcValid.v); role consistency cannot be dropped ---- *)
+Theorem C15_merge_rc_valid : forall a b : sigT, valid_sig (params a) = true -> valid_sig (params b) = true -> role_consistent [params a; params b] = true -> merge [a; b] <> Err ValueErr.
+Proof. exact @RcValid.merge_rc_valid. Qed.
+Print Assumptions C15_merge_rc_valid.
+
+Theorem C15_merge_rc_only_incompatible : forall (a b : sigT) (e : err), valid_sig (params a) = true -> valid_sig (params b) = true -> role_consistent [params a; params b] = true -> merge [a; b] = Err e -> e = Incompatible.
+Proof. exact @RcValid.merge_rc_only_incompatible. Qed.
+Print Assumptions C15_merge_rc_only_incompatible.
+
+Theorem C15_merge_rc_ok_iff_merger : forall a b : sigT, valid_sig (params a) = true -> valid_sig (params b) = true -> role_consistent [params a; params b] = true -> match merger (sort_params a) (sort_params b) with | Ok acc => merge [a; b] = Ok {| params := flatten acc; ret := ret a; uret := uret a; srcs := ssrc acc; deps := sdep acc |} | Err _ => merge [a; b] = Err Incompatible end.
+Proof. exact @RcValid.merge_rc_ok_iff_merger. Qed.
+Print Assumptions C15_merge_rc_ok_iff_merger.
+
+Theorem C15_merge_valid_without_rc_refuted : exists a b : sigT, valid_sig (params a) = true /\ valid_sig (params b) = true /\ role_consistent [params a; params b] = false /\ merge [a; b] = Err ValueErr.
+Proof. exact @RcValid.merge_valid_without_rc_refuted. Qed.
+Print Assumptions C15_merge_valid_without_rc_refuted.
+
